@@ -48,15 +48,15 @@ A_COMMON = [
     'A7 the models of builtins / RxPY / stdlib in rxv/pymodels.py, heapmodels.py, strmodels.py, libmodels.py, world.py are trusted (listed per run under trusted_base)',
     'termination of loops is not verified',
     'what the extraction of a function drops: docstrings and string-literal statements, print / logging calls, the disposables returned by subscribe and the scheduler argument (passed through, never used); every other statement is interpreted or the function is reported outside the subset (undecided)',
-    'glue lemmas over the per-handler contracts: L1 (projection / confinement, lemmas/KT.lean), L2 (composition) + L5 (folds) (lemmas/L2.lean) and L4 (framing: chunking independence, uniqueness, round trip; lemmas/L4.lean) and L3a (a KT handler maps a well-formed mux trace to a well-formed one with the same live keys; lemmas/L3.lean) are checked by Lean 4; L3b (spawner ; inner pipeline ; demux is again a keyed transducer over the outer keys) is a paper lemma (DESIGN section 5) - the nesting scenarios of the bounded tier exercise it',
+    'glue lemmas over the per-handler contracts: L1 (projection / confinement, lemmas/KT.lean), L2 (composition) + L5 (folds) (lemmas/L2.lean) and L4 (framing: chunking independence, uniqueness, round trip; lemmas/L4.lean) and L3a (a KT handler maps a well-formed mux trace to a well-formed one with the same live keys; lemmas/L3.lean) and L3b (confinement composes: a keyed machine -- plain transducer, key spawner or demultiplexer -- is local to every key set, and compositions of local stream functions are local, hence spawner ; inner pipeline ; demux nested to any depth confines each outer key; lemmas/L3b.lean) are checked by Lean 4; that each real handler *is* such a keyed machine (outputs of an event of key k carry keys projecting on k, only slot k is touched) is what the per-handler `emits` / `frame` obligations discharge',
 ]
 
 define('C01', 'multiplexing is transparent', SCALAR + MISC_OPS + PLUMB + TEE + [op('spawners', 'group_by_mux')] + HELP('batch', 'distinct_until_changed', 'math', 'formal', 'misc')
        + PLAIN('scan', 'flat_map', 'assert_1', 'dispatch') + LEAN('KT', 'L2') + [bounded('mux', 'check_c01')],
        A_COMMON + ['RxPY plain operators (ops.map/filter/first/last/take/to_list/do_action) are assumed to have their documented list semantics'], 'DESIGN 7/C01')
-define('C02', 'state confinement', STORE + SCALAR + SEQ + [op('seqops', 'assert_1_mux')] + SPAWN + TEE + HELP('batch', 'distinct_until_changed', 'formal') + LEAN('KT', 'L2')
+define('C02', 'state confinement', STORE + SCALAR + SEQ + [op('seqops', 'assert_1_mux')] + SPAWN + TEE + HELP('batch', 'distinct_until_changed', 'formal') + LEAN('KT', 'L2', 'L3b')
        + [bounded('mux', 'check_c02')], A_COMMON, 'DESIGN 7/C02')
-define('C03', 'mux event protocol', SCALAR + SEQ + MISC_OPS + PLUMB + ERRORS + SPAWN + TEE + LEAN('L3') + [bounded('mux', 'check_c03')], A_COMMON, 'DESIGN 7/C03')
+define('C03', 'mux event protocol', SCALAR + SEQ + MISC_OPS + PLUMB + ERRORS + SPAWN + TEE + LEAN('L3', 'L3b') + [bounded('mux', 'check_c03')], A_COMMON, 'DESIGN 7/C03')
 define('C04', 'group_by partitions', [op('spawners', 'group_by_mux'), op('seqops', 'demux_mux_observable')] + STORE + [bounded('mux', 'check_c04')], A_COMMON, 'DESIGN 7/C04')
 define('C05', 'roll windows', [op('roll', 'roll_mux'), op('roll', 'roll_count'), op('seqops', 'demux_mux_observable')] + STORE + [bounded('mux', 'check_c05')], A_COMMON, 'DESIGN 7/C05')
 define('C06', 'split', [op('spawners', 'split_mux'), op('seqops', 'demux_mux_observable')] + [bounded('mux', 'check_c06')], A_COMMON, 'DESIGN 7/C06')
